@@ -80,7 +80,10 @@ def gen_bin_value(rng, fd):
 class CHECK(Check):
     pid = "C09"
     entry = "LINE"
-    theorems = ["C09_int_roundtrip", "C09_int_patterns", "C09_int_field", "C09_int_edges", "C09_float_width", "C09_float_bits_roundtrip", "C09_missing", "C09_line_width"]
+    theorems = ["C09_int_roundtrip", "C09_int_patterns", "C09_int_field", "C09_int_edges", "C09_float_width", "C09_float_bits_roundtrip", "C09_missing", "C09_line_width",
+                "C09_narrowing_is_round_nearest_even", "C09_narrowing_nearest", "C09_widening_exact", "C09_bits_of_value",
+                "C09_float_reads_back_rounded", "C09_float_overflow", "C09_float64_exact", "C09_float_exact_if_representable"]
+    property_files = ["C09", "C09real"]
     rule = ("(a) ALL 65 536 two-byte patterns read through an int16 field and written back (complete); (b) binary layouts "
             "of 1-6 fields (2/4/8-byte integers and floats, ASCII literals, dates; offsets, gaps, any order) x values: "
             "int boundaries +-1 of every width and random values, random finite float64 bit patterns, values that are "
